@@ -63,7 +63,11 @@ def model_check(tag, shape_names, props, invariants, fixobs=False, coverage=True
     body += "".join("INVARIANT %s\n" % i for i in invariants) + "".join("PROPERTY %s\n" % p for p in props)
     body += "CHECK_DEADLOCK %s\n" % ("TRUE" if deadlock else "FALSE")
     c = cfg(os.path.join(d, "mc.cfg"), body)
-    return tlc.run_tlc("Scheduler", c, specdir=d, coverage=coverage, timeout=timeout, workers=workers, expect_violation=True)
+    r = tlc.run_tlc("Scheduler", c, specdir=d, coverage=coverage, timeout=timeout, workers=workers, expect_violation=True)
+    if not r["ok"] and r["violated"] is None:
+        # TLC itself failed (JVM could not start, out of memory, parse error ...): say so instead of "vacuous model run"
+        raise MachineryError("TLC failed (rc=%s) on %s:\n%s" % (r.get("rc"), tag, r["out"][-2500:]))
+    return r
 
 
 def emit_terminals(tag, shape_names, fixobs=False, timeout=1700, invariants=(), props=(), **env):
